@@ -18,6 +18,7 @@ import PgProofs.GenDedupEvo
 import PgProofs.GenEvoGen
 import PgProofs.GenEvoChunk
 import PgModel.GenOps
+import PgModel.GenSched
 namespace Pg.C15
 
 /-- Generated obligation: the current source has the repaired shape of `Deduping.recover/_replay`
@@ -893,5 +894,55 @@ theorem C15_recover_dedup_hill_climb (base : Env) (hq : base.q = Quirks.patched)
 /-! (The operator instantiation is exercised by the correspondence run: every child of every `_evolve` call of
 the real regularized_evolution / hill_climb is recomputed by `Ops.reproOf` from the recorded draws; `mergeSort`
 in the C14 selectors does not reduce in the kernel, so no `decide` example is given here.) -/
+
+/-! ### Scheduled hyper-parameters with internal state (`scalars.StepWise`, finding F240) -/
+
+/-- Pinned `StepWise.call`: the schedule `[(3, 1), (4, 2)]` called at every step gives 2 at step 5; the
+fresh schedule object of an instance recovered at step 5, first called at step 5, gives 1 — and stays in
+its first phase forever. -/
+theorem C15_F240_counterexample :
+    (Sched.run true [(3, .const 1), (4, .const 2)] Sched.init [0, 1, 2, 3, 4, 5, 6]).drop 5 = [some 2, some 2]
+    ∧ Sched.run true [(3, .const 1), (4, .const 2)] Sched.init [5, 6] = [some 1, some 1] := by
+  decide
+
+/-- Repaired `StepWise.call` (/repo df4963a): the value is a function of the step, so whatever
+calls were or were not made before — a recovered instance, a reproduction that is only invoked every few
+steps — every later call returns what the uninterrupted schedule returns. -/
+theorem C15_stepwise_stateless (phases : List (Nat × Sched.PV)) (st : Sched.State) (steps : List Nat) :
+    Sched.run false phases st steps = steps.map (Sched.callStateless phases) := by
+  induction steps with
+  | nil => rfl
+  | cons s rest ih => simp only [Sched.run, Bool.false_eq_true, ↓reduceIte, ih, List.map_cons]
+
+theorem C15_stepwise_recovers (phases : List (Nat × Sched.PV)) (before after : List Nat) :
+    (Sched.run false phases Sched.init (before ++ after)).drop before.length
+      = Sched.run false phases Sched.init after := by
+  rw [C15_stepwise_stateless, C15_stepwise_stateless, List.map_append]
+  simp
+
+/-- …and on the example above the repaired schedule gives the values of the pinned one called at every
+step (the repair does not change sequential use). -/
+example : Sched.run false [(3, .const 1), (2, .step), (2, .const 7)] Sched.init [0, 1, 2, 3, 4, 5, 6, 7, 8]
+    = Sched.run true [(3, .const 1), (2, .step), (2, .const 7)] Sched.init [0, 1, 2, 3, 4, 5, 6, 7, 8] := by
+  decide
+
+/-! ### NEAT: population and living species -/
+
+/-- NEAT (`pg.evolution.neat`): the model's population component encodes
+`(global_state.living_species, population)` (PgModel/Neat.lean); the update is `Neat.update` — latest
+generation, then `speciate` with the userdata marks derived from the species table.  For every run, at
+every crash point, the recovered instance has the species table (representatives, members with
+multiplicity) and the population of the uninterrupted one: `DNA.userdata` is not persisted, but the replay
+of `Evolution.recover` rebuilds the marks (established by experiment on the real code first: 1350 crash
+points without a difference; then tied by correspondence).  Instance of `C15_recover_evolution`. -/
+theorem C15_recover_neat (env : Env) (hq : env.q = Quirks.patched) (seed : Nat) (sd : Bool) (sz : Option Nat)
+    (facts : Neat.Facts) (dims : List Nat) (_hu : env.update = Neat.update facts dims) (run : List Event) :
+    ∃ enc, popComponent (.ok (runLive env (.evolution (.random seed sd) sz) run).st) = some enc
+      ∧ popComponent (recover env (.evolution (.random seed sd) sz) (setup (.evolution (.random seed sd) sz))
+          (runLive env (.evolution (.random seed sd) sz) run).hist) = some enc
+      ∧ ∃ species pop, Neat.decode enc = (species, pop) := by
+  obtain ⟨np, nf, pop, si, ini, g, pend, si', ini', g', pend', h1, h2⟩ :=
+    C15_recover_evolution env hq (.random seed sd) (Or.inr ⟨seed, sd, rfl⟩) sz run
+  exact ⟨pop, by rw [h1]; rfl, by rw [h2]; rfl, _, _, rfl⟩
 
 end Pg.C15
